@@ -1,7 +1,8 @@
 import RichModel.Lemmas.LayoutTable
 /-!
 **`Columns` never overflows** (segment level): the inner `Table.grid` of `columnsConsole` is a table with at
-least one and at most `len(items)` columns, all free to wrap, so `tableConsole_decomp` applies.
+least one and at most `len(items)` columns, all free to wrap (no `Columns(width=…)`: the grid's columns have no `width`; they never
+have a ratio), so `tableConsole_decomp` applies.
 -/
 namespace RichModel.Layout
 open RichModel RichModel.Frames
@@ -77,7 +78,7 @@ theorem tb_getD_items_ok (items : List Ch) (h : ∀ ch ∈ items, tb_MeasOk ch) 
 /-- **Columns.**  No explicit `width`, items with sound measurements (`0 ≤ maximum ≤ available`), at least one cell per item
 available: the output is the poison (bad `padding` tuple), nothing (no items), or title ++ body where the body is a sequence of
 complete lines none wider than the available width. -/
-theorem columnsConsole_decomp (cfg : Cfg) (hcw : cfg.cw = C07.cw) (hfl : cfg.fl.leadingRepeat = false)
+theorem columnsConsole_decomp (cfg : Cfg) (hcw : cfg.cw = cwD) (hfl : cfg.fl.leadingRepeat = false)
     (o : ColsOpts) (opts : Opts) (items : List Ch) (w : Nat) (hw1 : 1 ≤ w) (hwn : o.lay.width = none)
     (hmeas : ∀ ch ∈ items, ∀ k : Nat, 0 ≤ (ch.measure k).maximum ∧ (ch.measure k).maximum ≤ (k : Int))
     (hlen : items.length ≤ w) :
@@ -113,7 +114,11 @@ theorem columnsConsole_decomp (cfg : Cfg) (hcw : cfg.cw = C07.cw) (hfl : cfg.fl.
             intro c hc
             rw [← hcols] at hc
             obtain ⟨j, _, rfl⟩ := List.mem_map.mp hc
-            exact ⟨rfl, rfl, rfl, Or.inr rfl⟩)
+            refine ⟨⟨?_, rfl, rfl⟩, Or.inr ?_⟩
+            · show o.lay.width.map Int.toNat = none
+              rw [hwn]; rfl
+            · show (none : Option Nat) ≠ some 0
+              intro h; cases h)
           (by
             intro c hc
             rw [← hcols] at hc
